@@ -11,7 +11,17 @@ PROP = dict(
                        "Comdex.C13.collector_custody_ge_sum_netfees_counterexample",
                        "Comdex.C13.collector_custody_ge_sum_netfees_counterexample_debt",
                        "Comdex.C13.netfees_delta_exact_partial", "Comdex.C13.netfees_delta_exact_counterexample",
-                       "Comdex.C13.repaired_surplus_close_exact", "Comdex.C13.repaired_debt_close_exact"],
+                       "Comdex.C13.repaired_surplus_close_exact", "Comdex.C13.repaired_debt_close_exact",
+                       # savings reward computed inside the model
+                       "Comdex.C13.reward_paid_pos", "Comdex.C13.accrued_nonneg", "Comdex.C13.accrued_zero_rate",
+                       "Comdex.C13.accrued_zero_time", "Comdex.C13.accrued_mono_balance", "Comdex.C13.reward_le_netfees",
+                       "Comdex.C13.reward_unpayable_rejects", "Comdex.C13.reward_calc_le_netfees", "Comdex.C13.reachableT_inv",
+                       "Comdex.C13.deposited_eq_sum_netbalance_timed", "Comdex.C13.locker_custody_ge_deposited_timed",
+                       "Comdex.C13.netfees_nonneg_timed", "Comdex.C13.collector_custody_timed_partial",
+                       # auction start decisions, emergency guards
+                       "Comdex.C13.surplus_start_only_above_threshold", "Comdex.C13.debt_start_only_below_threshold",
+                       "Comdex.C13.no_start_when_switched_off", "Comdex.C13.activation_sweep_keeps_books",
+                       "Comdex.C13.shutdown_blocks_create_deposit_whitelist"],
     harness_tests=["TestC13"],
     trusted_base=[KERNEL_TB, HARNESS_TB,
                   "Model/Locker.lean is hand-written from x/locker/keeper/msg_server.go, x/locker/keeper/locker.go, "
@@ -19,10 +29,16 @@ PROP = dict(
                   "x/auctionsV2, x/liquidationsV2; tied by replaying every generated message / keeper call on the real app and "
                   "comparing the outcome and the complete projection (all lockers, lookup tables, net-fee records, lockerV1 / "
                   "collectorV1 balances, user balances) after every call",
-                  "the accrued savings reward (float64 math.Pow in CalculationOfRewards) and the vault fee amounts are external inputs: "
-                  "printed by the harness from the real keepers, checked >= 0 by the driver, universally quantified in the theorems",
+                  "the savings reward is computed INSIDE the model (Model/Accrual.lean of C18: exact IEEE-754 arithmetic, tracker, time "
+                  "stamps); the only input is the value of the one math.Pow call of CalculationOfRewards, mirrored by the harness with its two "
+                  "arguments (the driver recomputes the arguments from the model state and diffs them); vault fee amounts remain external "
+                  "inputs (>= 0 checked by the driver, universally quantified in the theorems)",
+                  "theorems about the accrued amount assume pow >= 1.0 and pow(x, 0) = 1.0 (monitors pow_ge_one, pow_zero_exp on every real "
+                  "call); the ledger invariants assume nothing about the power value",
                   "x/bank: no vesting / blocked / send-disabled accounts are created; protobuf and the KV store are exercised, not modelled"],
-    assumptions=["ESM and kill-switch are off (their guards are property C14)",
+    assumptions=["surplus and debt flag of an auction-mapping entry are mutually exclusive (enforced by SetAuctionMappingForApp); both assets "
+                 "of a collector entry exist; first-generation auction parameters exist for the app",
+                 "the emergency wind-down of RUNNING first-generation auctions (ESM status set) and all bidding are not modelled",
                  "every asset has its own denomination (the harness gives each asset id a distinct denom)",
                  "fee inflows are modelled as 'the collector receives x and records x'; where the coins come from (vault, auction "
                  "escrow) is the subject of C01/C02/C11",
@@ -30,8 +46,10 @@ PROP = dict(
     rule="each case is one generated history on a fresh branch of a real app: 1-4 whitelisted (app, asset) pairs with random saving rates, "
          "5 locker users, 10-70 (thorough 10-160) steps of locker create/deposit/withdraw/close/reward-calc messages, saving-rate "
          "changes, real vault create/draw/repay/close messages, liquidation penalties, auction returns, GetAmountFromCollector, raw "
-         "decreases, surplus funds, with time gaps from 0 s to 200 days and boundary-directed amounts; plus second-generation surplus "
-         "and debt auctions run end to end; distinct = distinct trace text, non-trivial = at least one accepted call",
+         "decreases, surplus funds, ESM / kill-switch toggles, with time gaps from 0 s to 200 days and boundary-directed amounts; plus "
+         "second-generation surplus and debt auctions run end to end; plus activation histories: four collector entries with random "
+         "thresholds and lot sizes, net fees steered to surplusThreshold+lot / debtThreshold-lot and their neighbours, the real "
+         "x/auction and liquidationsV2 begin-blockers deciding; distinct = distinct trace text, non-trivial = at least one accepted call",
 )
 
 META = dict(
@@ -42,7 +60,11 @@ META = dict(
          "equals the sum of the lockers' net balances; the locker custody account covers the totals; a withdrawal pays exactly the "
          "requested amount and a close exactly the full net balance; recorded net fees never go negative; the collector's custody "
          "covers the recorded net fees up to a shortfall bounded by the second-generation auction closes, hence fully for histories "
-         "without them; every other operation moves record and custody by exactly the same amount. The unrestricted collector-custody "
+         "without them; every other operation moves record and custody by exactly the same amount; the savings reward is computed in "
+         "the model from balance, rate, time stamps, tracker and the math.Pow value (paid >= 1 unit, <= the recorded net fees, zero for zero "
+         "rate or zero time, monotone in the balance, a message whose reward the collector cannot pay is rejected as a whole); a surplus "
+         "auction starts only at net fees >= threshold + lot and takes exactly the lot, a debt auction only at net fees <= threshold - lot; "
+         "after an emergency shutdown or with the kill switch on, create / deposit / whitelist are rejected. The unrestricted collector-custody "
          "clause is FALSE of the code: CloseEnglishAuction (surplus and debt branch) is proved to break it on concrete witnesses which "
          "the harness replays on the real chain code first in every run.",
     note="Trusted: Lean kernel, the hand-written model as far as the correspondence run exercises it, the harness. External inputs "
